@@ -9,6 +9,9 @@ fields (the class `TriangleError` is part of the property), and identity on the 
 """
 import datetime
 import json
+import multiprocessing
+import os
+import random
 
 import numpy as np
 
@@ -170,10 +173,10 @@ def field_variants(rng, cells, incremental):
 
 # ---- correspondence -----------------------------------------------------------------------
 
-def correspondence(ctx):
+def run_stream(ctx, n_tri):
+    """the whole correspondence for `n_tri` generated triangles, recorded in `ctx`"""
     rng = ctx.rng
     drv = common.Driver("drv_c04")
-    n_tri = 20000 if ctx.thorough else 300
     model_variants = 1 if ctx.thorough else 4     # refusal variants per triangle also sent to the model
     reqs, post = [], []
 
@@ -350,10 +353,51 @@ def correspondence(ctx):
     flush()
 
 
+def _worker(args):
+    """one share of the thorough stream in a child process; returns what its Ctx recorded"""
+    tier, seed, wseed, n = args
+    w = common.Ctx("C04", tier, seed)
+    w.rng = random.Random(wseed)
+    infra = None
+    try:
+        run_stream(w, n)
+    except common.Infra as e:      # re-raised in the parent
+        infra = str(e)
+    return {"evaluations": w.evaluations, "nontrivial": w.nontrivial, "samples": w.samples, "hist": w.hist,
+            "fails": w.spec_failures[:100], "n_fails": len(w.spec_failures),
+            "dis": w.disagreements[:100], "infra": infra}
+
+
+def correspondence(ctx):
+    n_tri = 20000 if ctx.thorough else 300
+    workers = int(os.environ.get("VERIF_WORKERS") or (min(8, os.cpu_count() or 1) if ctx.thorough else 1))
+    if workers <= 1:
+        return run_stream(ctx, n_tri)
+    # thorough: independent shares, each with its own generator seeded from ctx.rng (replayable from
+    # VERIF_SEED), each talking to its own driver process
+    seeds = [ctx.rng.randrange(1 << 62) for _ in range(workers)]
+    shares = [n_tri // workers + (1 if i < n_tri % workers else 0) for i in range(workers)]
+    with multiprocessing.get_context("fork").Pool(workers) as pool:
+        results = pool.map(_worker, [(ctx.tier, ctx.seed, ws, n) for ws, n in zip(seeds, shares)])
+    for r in results:
+        if r["infra"]:
+            raise common.Infra(r["infra"])
+        ctx.evaluations += r["evaluations"]
+        ctx.nontrivial |= r["nontrivial"]
+        for smp in r["samples"]:
+            if len(ctx.samples) < 4:
+                ctx.samples.append(smp)
+        for k, v in r["hist"].items():
+            ctx.count(k, v)
+        ctx.spec_failures.extend(r["fails"])
+        ctx.disagreements.extend(r["dis"])
+    ctx.notes.append(f"correspondence run in {workers} processes, shares {shares}")
+
+
 if __name__ == "__main__":
     common.run_check(
         "C04", module="Bermuda.Properties.C04", driver_targets=["drv_c04"],
-        correspondence=correspondence, level="translation_validation",
+        correspondence=correspondence, level="proof",
         rule="random valid cumulative triangles (Cell or CumulativeCell; 1-4 slices sharing or not sharing the period "
              "layout; regular square/triangle, ragged, day-level irregular periods; every field one of int / dyadic "
              "float / int64 array / float64 array; earned_premium present or not, constant or varying; key insertion "
